@@ -159,6 +159,10 @@ func execOp(op string) (out string) {
 	switch args[0] {
 	case "fen", "gen", "attby", "mv", "mvs", "play", "null", "perft", "att", "magic":
 		return execChess(args)
+	case "search", "judge":
+		return execSearch(args)
+	case "facts":
+		return "facts=1"
 	case "eval", "evalc", "see", "tt", "order", "time", "go", "prep":
 		return execEngine(args)
 	}
